@@ -149,6 +149,10 @@ partial def serPlainOf : Val → Val
 /-- the concrete hooks the harness attaches (same functions in harness/props/c05.py: `HOOKS`, and
     harness/props/c13.py for 13 / 24) -/
 def hookEnv : HEnv
+  | 14, _ => .ok .none                                                 -- enc: lambda v: None
+  | 25, v => match v with                                              -- dec: lambda r: "was-none" if r is None else "not-none"
+    | .none => .ok (.str "was-none".toList)
+    | _ => .ok (.str "not-none".toList)
   | 13, v => .ok (.dict false [(.str ['w'], serPlainOf v)])            -- enc: lambda v: {"w": hook_plain(v)}
   | 24, v => match v with                                              -- dec: lambda r: deepcopy(r["w"])
     | .dict _ ps => match lookupKey (.str ['w']) ps with
